@@ -6,7 +6,7 @@ META = dict(
                        "pydra.engine.job.Job.run (except/finally)", "pydra.engine.result.record_error", "save", "load_result",
                        "Job.result / Job.done", "pydra.compose.base.task.Task.__call__ (error reporting)", "Submitter.__call__"],
     stubs=["vf/engine.py: scratch cache root on the real file system, logical clock, untraced cloudpickle / hash_function on concrete values"],
-    outside=["shell tasks (non-zero exit codes need a real process)", "a body that returns None while outputs are declared (listed, not judged)",
+    outside=["real shell processes (the process is stubbed: subprocess.run as seen from pydra.environments.base returns the symbolic return code)", "a body that returns None while outputs are declared (listed, not judged)",
              "process-pool workers"],
     assumptions=["failure modes are the enumerated return shapes; x is realised per path"],
 )
@@ -33,6 +33,15 @@ def build(tier, seed, exclude):
             err = EN.c13(mode, T.real(x), T.real(again))
             return T.fail(err) if err else True
         """, timeout=to)
+    g.cond("h_optional_output", "mode: int, x: int, again: bool", ["0 <= mode <= 7 and 0 <= x <= 1"], """
+        err = EN.c13_opt(T.real(mode), T.real(x), T.real(again))
+        return T.fail(err) if err else True
+    """, timeout=to)
+    g.cond("h_shell_return_code", "ri: int, again: bool", ["0 <= ri < 8"], """
+        rc = [0, 1, 2, 127, 255, -1, -9, -11][T.real(ri)]
+        err = EN.c13_shell(rc, T.real(again))
+        return T.fail(err) if err else True
+    """, timeout=to)
     g.cond("h_workflow_inner_failure", "x: int, again: bool", ["0 <= x <= 1"], """
         import vf.engine as E, vf.rec as R
         from vf.hl import engdefs as D
